@@ -10,7 +10,7 @@ DEPENDS = {
                                    "a parse that fails part-way must leave the message decodable again (raw body restored "
                                    "as received, not in a half-decoded form)"),
             "C13": (["R2"], "LLQuaternion variables are decoded through Quaternion.__init__: it must keep the wire components")},
-    "C02": {"C01": (["R1", "R2", "R3", "R4", "R5", "R6", "R7", "R8", "R11", "R15"],
+    "C02": {"C01": (["R1", "R2", "R3", "R4", "R5", "R6", "R7", "R8", "R11", "R15", "R19"],
                     "a parsed body is re-encoded through the codec: pass-through fidelity needs codec agreement"),
             "C03": (["R1", "R2"], "canonical zero-coding is what makes re-encoding byte-identical")},
     "C03": {},
@@ -51,7 +51,8 @@ DEPENDS = {
     "C17": {"C12": (["R1"], "event-queue messages are decoded by LLSDMessageSerializer (no aliasing / stale memo)")},
     "C18": {"C12": (["R1"], "logged EQ events are decoded by LLSDMessageSerializer without mutating the retained event"),
             "C01": (["R15"], "a frozen / thawed or exported entry is a deferred message: its body must still parse when asked")},
-    "C19": {"C01": (["R4", "R6", "R8"], "a packet whose header cannot be parsed is neither acked nor delivered"),
+    "C19": {"C01": (["R4", "R6", "R8", "R19"], "a packet whose header cannot be parsed is neither acked nor delivered; a PacketAck "
+                                                "whose (zero-coded) body is misread completes the wrong sends or none"),
             "C07": (["R2"], "delivery to each subscriber needs Event.notify's isolation")},
     "C20": {"C08": (["R1", "R2", "R3", "R8", "R9", "R10", "R11", "R12", "R13", "R14", "R15", "R16"], "mesh and animation codecs are built from the combinators"),
             "C12": (["R2", "R3", "R5", "R6", "R7"], "inventory LLSD flavours go through the LLSD codecs"),
